@@ -91,6 +91,14 @@ def r9(run, fx):
               "the engine reports guarded code of the control crate: %s" % sorted(flagged & R9_CONTROL_GOOD))
     res = intervals.results(fx)
     sites = [x for x in res["sites"] if x["kind"] != "narrowing"]
+    # the FFI layer: its own arithmetic (packing / unpacking of wide integers, index conversions) on caller-chosen arguments
+    capi = intervals.results(fx, "temporal_capi")
+    capi_sites = [x for x in capi["sites"] if x["kind"] != "narrowing"]
+    run.analysed["r9_capi_entry_points"] = capi["stats"].get("entry_points", 0)
+    run.analysed["r9_capi_sites"] = len(capi_sites)
+    if capi["stats"].get("entry_points", 0) < 200:
+        run.anchor_missing(rule, "capi-coverage", "only %d entry points of temporal_capi analysed (expected >= 200)" %
+                           capi["stats"].get("entry_points", 0))
     st = {0: 0, 1: 0, 2: 0}
     for x in sites:
         st[x["status"]] += 1
@@ -107,7 +115,7 @@ def r9(run, fx):
         run.anchor_missing(rule, "coverage", "only %d entry points / %d arithmetic sites analysed (expected >= 700 / >= 350)" %
                            (stats.get("entry_points", 0), len(sites)))
     # stable keys: <function>/<kind>#<ordinal among the sites of that kind in the function, in block order>
-    for x in sites:
+    for x in sites + capi_sites:
         key = "%s/%s#%d" % (x["fn"].replace("temporal_rs::", ""), x["kind"], x["ordinal"])
         loc = "%s:%s" % (x["file"], x["line"] or x["fn_line"])
         if x["status"] == 2:
